@@ -352,6 +352,15 @@ def parseSigTok (s : String) : Option (Option Bytes) :=
       let src ← num b
       pure (some [5, v, src])
     | _ => none
+  -- `P<x>.<r>`: the bytes that were member x's valid share on the content of request r of the history –
+  -- for THIS request an entry with index x that does not verify
+  | 'P' :: r =>
+    match (String.ofList r).splitOn "." with
+    | [a, b] => do
+      let x ← num a
+      let q ← num b
+      pure (some [6, x, q])
+    | _ => none
   | k :: r =>
     if k = 'V' ∨ k = 'T' then
       match (String.ofList r).splitOn "." with
@@ -484,9 +493,31 @@ def evLine (padSize addrLen : Nat) (ws : List String) : String :=
     | _, _, _, _, _, _, _, _ => "bad-op"
   | _ => "bad-op"
 
+/-- one request of a `hist` line: `kind/last/rid/useed/sched` -/
+def histRequest (padSize addrLen n : Nat) (ids : List Bytes) (byz : List Nat) (w : String) : String :=
+  match w.splitOn "/" with
+  | [kind, last, rid, useed, sched] =>
+    let items : Option (List Item) := if sched == "-" then some [] else (sched.splitOn ",").mapM parseItem
+    match parseKind kind, last.toNat?, rid.toNat?, useed.toNat?, items with
+    | some kind, some last, some rid, some useed, some its =>
+      runCase padSize addrLen kind n ids byz last rid useed none [] [] its
+    | _, _, _, _, _ => "bad-op"
+  | _ => "bad-op"
+
+/-- a history: the same nodes serve the requests one after the other.  The model carries NOTHING from one
+request to the next (`Props.C01.requests_independent`): every request is `runCase` on its own. -/
+def histLine (padSize addrLen : Nat) (ws : List String) : String :=
+  match ws with
+  | n :: _seed :: ids :: byz :: reqs =>
+    match n.toNat?, hexList ids, csvNat byz with
+    | some n, some ids, some byz => String.intercalate " | " (reqs.map (histRequest padSize addrLen n ids byz))
+    | _, _, _ => "bad-op"
+  | _ => "bad-op"
+
 def stepLine (padSize addrLen : Nat) (line : String) : String :=
   match words line with
   | "ev" :: rest => evLine padSize addrLen rest
+  | "hist" :: rest => histLine padSize addrLen rest
   | ["q", kind, n, _seed, ids, byz, last, rid, useed, _doc, _sel, parsed, alts, sched] =>
     match parseKind kind, n.toNat?, hexList ids, csvNat byz, last.toNat?, rid.toNat?, useed.toNat?, hexList alts with
     | some kind, some n, some ids, some byz, some last, some rid, some useed, some alts =>
